@@ -350,7 +350,9 @@ class RuntimeContext:
         if self.context:
             self.routes = list(self.context.routes)
 
-        if route:
+        if route is not None:
+            # a route (field name, list index, mapping key) stays on the same nesting level;
+            # index 0 and empty keys are routes too
             self.routes.append(route)
         else:
             self.depth += 1
